@@ -1,15 +1,18 @@
 #!/usr/bin/env python3
-"""Generate /verif/MANIFEST.json from the table below and `crverif -list`."""
-import json, subprocess, os, sys
+"""Generate /verif/MANIFEST.json from `crverif -describe` (rule-set metadata lives next to the rules)."""
+import json, subprocess, os
 V = os.path.dirname(os.path.dirname(os.path.abspath(__file__)))
-claimed = subprocess.run([os.path.join(V, "bin/crverif"), "-list"], capture_output=True, text=True).stdout.split()
+desc = json.loads(subprocess.run([os.path.join(V, "bin/crverif"), "-describe"], capture_output=True, text=True).stdout)
 props = [json.loads(l) for l in open(os.path.join(V, "properties.jsonl"))]
-meta = json.load(open(os.path.join(V, "tools/checks.json")))
+extra = json.load(open(os.path.join(V, "tools/checks.json")))
 checks, na = [], []
 for p in props:
     pid = p["id"]
-    m = meta.get(pid, {})
-    if pid in claimed and not m.get("unclaimed"):
+    d = desc.get(pid)
+    x = extra.get(pid, {})
+    if d and not x.get("unclaimed"):
+        text = ("Custom static analysis of /repo's current source (type-checked SSA); decides structural necessary conditions of the property on every control-flow path, not the behaviour as a whole. " + d["explanation"])
+        note = "Trusted base: " + "; ".join(d["assumptions"] or []) + ". NOT covered (declined clauses): " + "; ".join(d["not_covered"] or ["-"]) + "."
         checks.append({
             "property_id": pid,
             "quick_cmd": f"./bin/crverif -property {pid} -tier quick",
@@ -17,16 +20,12 @@ for p in props:
             "evidence_file": f"/verif/evidence/{pid}.json",
             "replay_cmd_template": f"./bin/crverif -property {pid} -replay {{path}}",
             "engine": "crverif",
-            "level_claimed": {
-                "category": "other",
-                "text": m["text"],
-                "design_ref": f"DESIGN.md §3 {pid}",
-            },
-            "level_note": m["note"],
-            "technique": m["technique"],
+            "level_claimed": {"category": "other", "text": text, "design_ref": f"DESIGN.md §3 {pid}"},
+            "level_note": note,
+            "technique": d.get("technique") or "static analysis: path-sensitive dataflow over go/ssa (CFG path rules, guard atoms, provenance extraction, interval value-sets, who-may/table agreement)",
         })
     else:
-        na.append({"property_id": pid, "reason": m.get("na_reason", "check not built yet in this round; planned per DESIGN.md §3 (static rules R-%s-*)" % pid)})
+        na.append({"property_id": pid, "reason": x.get("na_reason", "check not built yet in this round; planned per DESIGN.md §3 (static rules R-%s-*)" % pid)})
 man = {
     "version": 1,
     "setup_cmd": "cd /verif/checker && GOFLAGS=-mod=vendor GOPROXY=off GOSUMDB=off GOTOOLCHAIN=local go build -o ../bin/crverif ./cmd/crverif",
@@ -41,10 +40,10 @@ man = {
         "name": "crverif",
         "path": "/verif/checker",
         "serves_properties": [c["property_id"] for c in checks],
-        "kind_free_text": "custom static analyser over go/packages + go/ssa (x/tools v0.29.0, vendored): CFG path rules, control-dependence guards, symbolic provenance extraction, interval value-sets, structural who-may/table-agreement rules; reports file:line, function and rule for each violated obligation",
+        "kind_free_text": "custom static analyser over go/packages + go/ssa (x/tools v0.29.0, vendored): acyclic path enumeration with symbolic loop variables, control-dependence guards, symbolic provenance extraction (SEE), rational linear normal forms/intervals (VSA), structural who-may/table-agreement rules; reports file:line, function, rule and construct for each violated obligation",
     }],
     "checks": checks,
-    "notes": "All checks are static: the deciding step loads /repo's current source (go/packages LoadAllSyntax, SSA) on every run and never executes CoreRAD code. Exit 0 = all obligations discharged (KNOWN-FINDING lines for entries of known_findings.json), 1 = VIOLATION, 2 = ANALYSIS-ERROR (tree does not type-check).",
+    "notes": "All checks are static: the deciding step loads /repo's current source (go/packages LoadAllSyntax, SSA) on every run and never executes CoreRAD code. Exit 0 = all obligations discharged (KNOWN-FINDING lines for entries of known_findings.json), 1 = VIOLATION, 2 = ANALYSIS-ERROR (tree does not type-check). VERIF_REPO may point the checker at another tree (used only for development against scratch copies).",
     "not_applicable": na,
 }
 json.dump(man, open(os.path.join(V, "MANIFEST.json"), "w"), indent=1)
